@@ -427,7 +427,7 @@ def run(args):
         probes = run_impl([{"op": "c16.probe", "domain_text": w["domain_text"], "problem_text": w["problem_text"],
                             "calls": w["calls"]} for w in worlds])
         cases = corpus_cases() + fixture_cases(args.tier) + build_cases(rng, worlds, probes, args.tier)
-        seqs = build_sequences(rng, {"quick": 26, "thorough": 110}[args.tier])
+        seqs = build_sequences(rng, {"quick": 26, "thorough": 60}[args.tier])
     hashseeds = [0] if args.tier == "quick" else [0, 1]
     all_cases, all_verdicts, seq_units = [], "", []
     info_total = {"shards": 0, "shard_errors": [], "cmd": ""}
@@ -509,6 +509,8 @@ def run(args):
                     sd["steps_by_kind"][st["kind"]] = sd["steps_by_kind"].get(st["kind"], 0) + 1
                     sd["step_tags"][st.get("tag", "?")] = sd["step_tags"].get(st.get("tag", "?"), 0) + 1
                     sd["step_classes"][CLASS_NAMES.get(k, k)] = sd["step_classes"].get(CLASS_NAMES.get(k, k), 0) + 1
+                    if k == "x" and len(sd.setdefault("unreadable_samples", [])) < 3:
+                        sd["unreadable_samples"].append({kk: st.get(kk) for kk in ("kind", "members", "lines", "line", "tag")})
                     sd["plans_via_rewritten_file"] += 1 if st.get("via") == "file" else 0
                     sd["steps_on_a_returned_state_object"] += 1 if st.get("state", "init") != "init" else 0
                     sd["judged_steps_after_a_refusal"] += 1 if hist["refused"] and k in "nr" else 0
